@@ -26,6 +26,7 @@ import (
 	"github.com/google/uuid"
 
 	"go.6river.tech/mmmbbb/ent"
+	"go.6river.tech/mmmbbb/ent/snapshot"
 	"go.6river.tech/mmmbbb/ent/topic"
 	"go.6river.tech/mmmbbb/logging"
 )
@@ -71,6 +72,13 @@ func (a *PruneDeletedTopics) Execute(ctx context.Context, tx *ent.Tx) error {
 			Stringer("topicID", t.ID).
 			Time("deletedAt", *t.DeletedAt).
 			Msg("pruning deleted topic")
+	}
+
+	// a snapshot taken on a subscription whose topic was already deleted still
+	// refers to that topic and would block pruning it forever: remove those like
+	// DeleteTopic removes the snapshots that exist when the topic is deleted
+	if _, err := tx.Snapshot.Delete().Where(snapshot.TopicIDIn(ids...)).Exec(ctx); err != nil {
+		return err
 	}
 
 	numDeleted, err := tx.Topic.Delete().Where(topic.IDIn(ids...)).Exec(ctx)
